@@ -197,6 +197,10 @@ class TickPersistenceDecorator(BaseRuntimeDecorator):
         handlers instead of resuming them.
         """
         serializer = JsonSerializer()
+        # The catch_error routing tables that the reducer reads during replay
+        # are only built by validation, which otherwise first happens in
+        # workflow.run() -- i.e. after the replay on a freshly started server.
+        workflow._validate()
         legacy_ctx = self._get_legacy_ctx(run_id)
 
         tick_stream = stream_workflow_ticks(self._store, run_id)
